@@ -92,6 +92,41 @@ type barrier struct {
 
 var theBarrier barrier
 
+// hold: one goroutine is parked at one gate until another goroutine has reached another gate ("hold" op; schedule replay of an
+// interleaving that needs two different program points).  Armed for one use; a parked goroutine goes on after 2 s at the latest.
+var theHold struct {
+	mu           sync.Mutex
+	point, until string
+	ch           chan struct{}
+	parked       bool
+}
+
+func setHold(point, until string) {
+	theHold.mu.Lock()
+	theHold.point, theHold.until, theHold.ch, theHold.parked = point, until, make(chan struct{}), false
+	theHold.mu.Unlock()
+}
+
+func holdGate(point string) {
+	h := &theHold
+	h.mu.Lock()
+	switch {
+	case h.point != "" && point == h.point && !h.parked:
+		h.parked = true
+		ch := h.ch
+		h.mu.Unlock()
+		select {
+		case <-ch:
+		case <-time.After(2 * time.Second):
+		}
+		return
+	case h.point != "" && point == h.until && h.parked:
+		close(h.ch)
+		h.point, h.until = "", ""
+	}
+	h.mu.Unlock()
+}
+
 func (r *Runner) setBarrier(point string, n int) {
 	theBarrier.mu.Lock()
 	theBarrier.every = strings.HasSuffix(point, "*")
@@ -140,6 +175,7 @@ func (b *barrier) rendezvousFor(wait time.Duration) {
 
 // GateFn is installed with rapid.VerifSetGate.
 func GateFn(point string) {
+	holdGate(point)
 	b := &theBarrier
 	b.mu.Lock()
 	if b.point != "" && b.point == point && b.every {
@@ -527,6 +563,8 @@ func (in *inv) step(op *Op) {
 			}()
 			in.run(op.Body)
 		}()
+	case "hold": // park the next goroutine that reaches gate Text until some goroutine reaches gate Val
+		setHold(op.Text, op.Val)
 	case "goexit": // ends the goroutine without panicking (what testing.T.FailNow of an outer test does)
 		runtime.Goexit()
 	case "ctx":
